@@ -276,13 +276,17 @@ def check(prop, tier, seed, only_event=None):
     try:
         harness = run.build()
         harness_race = run.build(race=True) if p.get("race") else None
+        mcs = []
         for m in p.get("mc", []):
             if tier == "quick" and m.get("thorough_only"):
                 continue
             mm = dict(m)
             if tier == "thorough" and "cfg_thorough" in m:
                 mm["cfg"] = m["cfg_thorough"]
-            run.mc.append(run.run_mc(mm))
+            mm.setdefault("workers", 2 if tier == "quick" else 4)
+            mcs.append(mm)
+        with cf.ThreadPoolExecutor(max_workers=6 if tier == "quick" else 4) as ex:
+            run.mc = list(ex.map(run.run_mc, mcs))
         for tj in p.get("traces", []):
             if tier == "quick" and tj.get("thorough_only"):
                 continue
